@@ -86,7 +86,8 @@ def _gz_member(part, level, fname, mtime, extra, comment, hcrc):
     return out
 
 
-def gz(data, level=6, fname=None, mtime=0, members=1, extra=None, comment=None, hcrc=False, align=None):
+def gz(data, level=6, fname=None, mtime=0, members=1, extra=None, comment=None, hcrc=False, align=None,
+       align_last=True, tail_bytes=None):
     """gzip `data` (RFC 1952) with optional header fields, split into members.
 
     align=(modulus, delta): pad the FEXTRA field of each member so that every
@@ -95,14 +96,21 @@ def gz(data, level=6, fname=None, mtime=0, members=1, extra=None, comment=None, 
     boundaries."""
     if members <= 1 or len(data) < members:
         parts = [data]
+    elif tail_bytes and len(data) > tail_bytes + members:
+        # the last member holds only the last `tail_bytes` bytes (a short tail after the earlier members)
+        head = data[:-tail_bytes]
+        n = len(head)
+        cuts = [n * i // (members - 1) for i in range(members)]
+        parts = [head[cuts[i]:cuts[i + 1]] for i in range(members - 1)] + [data[-tail_bytes:]]
     else:
         n = len(data)
         cuts = [n * i // members for i in range(members + 1)]
         parts = [data[cuts[i]:cuts[i + 1]] for i in range(members)]
     out = bytearray()
-    for part in parts:
+    for pi, part in enumerate(parts):
         m = _gz_member(part, level, fname, mtime, extra, comment, hcrc)
-        if align:
+        # (align_last=False: the last member keeps its natural length, e.g. a short tail after an aligned boundary)
+        if align and (align_last or pi < len(parts) - 1):
             modulus, delta = align
             end = len(out) + len(m)
             pad = (delta - end) % modulus
